@@ -119,15 +119,23 @@ _cli_memo = {}
 
 
 def _cli_flatten_outcomes(res, models):
-    """per requested model: did main() log 'Error flattening <model>' (in request order, -v gives the delimiters)"""
+    """per requested model, in request order: did main() report an error for it?  `-v` gives the delimiters
+    ('Flattening X ...' / 'Generating model for X ...'); error lines: 'Error flattening X', 'Problem translating X to
+    SymPy', 'Error writing ...'."""
     out = []
     cur = None
     for lvl, msg in res["log"]:
+        start = None
         if msg.startswith("Flattening ") and msg.endswith(" ..."):
+            start = msg[len("Flattening "):-4]
+        elif msg.startswith("Generating model for ") and msg.endswith(" ..."):
+            start = msg[len("Generating model for "):-4]
+        if start is not None:
             if cur is not None:
                 out.append(cur)
-            cur = [msg[len("Flattening "):-4], "ok"]
-        elif msg.startswith("Error flattening ") and cur is not None:
+            cur = [start, "ok"]
+        elif cur is not None and (msg.startswith("Error flattening ") or msg.startswith("Problem translating ")
+                                  or msg.startswith("Error writing ")):
             cur[1] = "error"
     if cur is not None:
         out.append(cur)
@@ -178,11 +186,10 @@ def cli_compare(path, models, target, workdir, key):
     want_status = sum(a["status"] for a in alone)
     if together["status"] != want_status:
         bad.append("exit status %r, sum of the single runs %r" % (together["status"], want_status))
-    if target == "flatten":
-        want = [a["per_model"][0] if a["per_model"] else [m, "not-reached"] for a, m in zip(alone, models)]
-        if together["per_model"] != want:
-            bad.append("per-model outcomes %r, alone %r" % (together["per_model"], want))
-    else:
+    want = [a["per_model"][0] if a["per_model"] else [m, "not-attempted"] for a, m in zip(alone, models)]
+    if together["per_model"] != want:
+        bad.append("per-model outcomes %r, alone %r" % (together["per_model"], want))
+    if target != "flatten":
         want_files = {}
         for a in alone:
             want_files.update(a["files"])
@@ -245,8 +252,8 @@ def run(ctx):
     for l in rg.tr("LIB"):
         l["text"] = ct.render_flatten_lib(l)
         libs[l["id"]] = l
-    if len(libs) < 9:
-        raise MachineryError("expected 9 library shapes, got %d" % len(libs))
+    if len(libs) < 11:
+        raise MachineryError("expected 11 library shapes, got %d" % len(libs))
     inits = [{"lib": i, "touched": []} for i in sorted(libs)]
     g = graph.Graph(rg.tr(), init=inits)
     gi = graph.Graph(ri.tr(), init=inits)
@@ -257,11 +264,14 @@ def run(ctx):
     tour, covered = g.tour(max_len=8)
     if len(covered) != g.n_edges():
         raise MachineryError("tour covered %d of %d transitions" % (len(covered), g.n_edges()))
-    depth2 = g.all_paths(2, limit=200000)
+    # all ordered pairs of requests; the second one through flatten or through the same entry point as the first (the
+    # other entry-point combinations are covered by the tour, which visits every request in every as-built state)
+    depth2 = [p for p in g.all_paths(2, limit=200000)
+              if len(p) < 2 or g.edges[p[1]][1]["be"] in ("flatten", g.edges[p[0]][1]["be"])]
     g3 = graph.Graph([e for e in rg.tr() if e["act"]["be"] in (("flatten", "sympy") if thorough else ("flatten",))], init=inits)
     gf = graph.Graph([e for e in rg.tr() if e["act"]["be"] == "flatten"], init=inits)
     depth3 = g3.all_paths(3, limit=200000)
-    walks = g.random_walks(150 if not thorough else 3000, 8, ctx.seed + 5)
+    walks = g.random_walks(100 if not thorough else 3000, 8, ctx.seed + 5)
     items, meta = [], []
     for kind, gg, plist in (("tour", g, tour), ("depth2", g, depth2), ("depth3", g3, depth3), ("walk", g, walks)):
         for p in plist:
@@ -284,6 +294,8 @@ def _run_rest(ctx, thorough, procs, libs, g, gf, items, meta, scratch):
     ref_checked = 0
     for lib in libs.values():
         for c in lib["classes"]:
+            if c.get("bad"):
+                continue
             want = {x["name"]: (x["attrs"] if isinstance(x["attrs"], dict) else {}) for x in lib["flat"][c["name"]]}
             try:
                 got, _ = ct.flat_leaves(ptree.flatten(ct.fresh_tree(lib["text"]), ast.ComponentRef.from_string(c["name"])))
@@ -338,13 +350,18 @@ def _run_rest(ctx, thorough, procs, libs, g, gf, items, meta, scratch):
     # ---- 5. CLI clause: several -m versus each alone --------------------------------------------------
     cli_items = []
     seen_cli = set()
-    for p in gf.all_paths(3 if thorough else 2, limit=100000):
+    failing_libs = {i for i, l in libs.items() if any(c.get("bad") for c in l["classes"])}
+    for p in gf.all_paths(3, limit=200000):
         st = gf.steps(p)
         libid = st[0][0]["lib"]
         models = [s[1]["cls"] for s in st]
+        # libraries with failing models / unknown names: every order up to 3 models, flatten-only AND -t sympy (a failing
+        # model at every position); other libraries: up to 2 (thorough: 3) models flatten-only, sympy for repeats / pairs
+        if libid not in failing_libs and len(models) > (3 if thorough else 2):
+            continue
         spec = [{"seen": s[1]["seen"], "mechs": s[1]["mechs"]} for s in st]
         for target in ("flatten", "sympy"):
-            if target == "sympy" and (len(models) > 2 or not thorough and len(set(models)) > 1):
+            if target == "sympy" and libid not in failing_libs and (len(models) > 2 or not thorough and len(set(models)) > 1):
                 continue
             key = (libid, tuple(models), target)
             if key not in seen_cli:
@@ -368,6 +385,10 @@ def _run_rest(ctx, thorough, procs, libs, g, gf, items, meta, scratch):
                            "target": target, "tags": tags})
     if ncli["runs"] < 50:
         raise MachineryError("vacuous: only %d CLI comparisons ran" % ncli["runs"])
+    nfail = sum(1 for (it, _), res in zip(cli_items, cli_res) if "skipped" not in res and res.get("alone", 0) > 0 and len(it[1]) > 1)
+    if nfail < 50:
+        raise MachineryError("vacuous: only %d multi-model CLI runs contain a failing model" % nfail)
+    ncli["multi_model_runs_with_failing_model"] = nfail
     ctx.extra["cli"] = ncli
     ctx.sample({"kind": "cli", "argv": ["<lib>.mo", "-v", "-m", cli_items[0][0][1][0], "-m", cli_items[0][0][1][-1]],
                 "result": {k: v for k, v in cli_res[0].items() if k != "models"}}, limit=4)
